@@ -22,14 +22,19 @@ def run_limited(argv, k, scratch, tag, mode="file", cwd=None, timeout=60):
         if k is not None:
             resource.setrlimit(resource.RLIMIT_FSIZE, (k, k))
         resource.setrlimit(resource.RLIMIT_CORE, (0, 0))
+        if mode == "pipe":
+            # made here, in the single-threaded child: a pipe made in the (multi-threaded) parent can have its read end held open for
+            # a moment by another thread's fork, and a write that lands in that moment succeeds
+            r, w = os.pipe()
+            os.close(r)
+            os.dup2(w, 1)
+            os.close(w)
     if mode == "file":
         fo = open(outp, "wb")
     elif mode == "full":
         fo = open("/dev/full", "wb")
     else:
-        r, w = os.pipe()
-        os.close(r)
-        fo = os.fdopen(w, "wb")
+        fo = open(os.devnull, "wb")
     try:
         p = subprocess.run(argv, stdout=fo, stderr=subprocess.PIPE, stdin=subprocess.DEVNULL, env=env, preexec_fn=pre, cwd=cwd, timeout=timeout)
         rc, err = p.returncode, p.stderr
@@ -57,13 +62,13 @@ def run(chk, tier, seed):
                 "evaluation = one limited run; non-trivial = k < L; distinct by (command, k, mode)")
     chk.assumptions = ["RLIMIT_FSIZE with SIGXFSZ ignored makes write() fail with EFBIG at the limit, like a full device",
                        "images are uncompressed so the limit does not hit a decompression temporary file"]
-    for cfg, expect_hold in (("OutStream_fixed.cfg", True), ("OutStream_old.cfg", False)):
+    for cfg, expect_hold in (("OutStream_fixed.cfg", True), ("OutStream_old.cfg", False), ("OutStream_cold.cfg", False)):
         r = common.tlc("OutStream", cfg)
         chk.add_tlc(cfg, r)
         if expect_hold and r.violated:
             chk.violation("model:" + r.violated, "OutStream.tla: the flush+test profile violates %s\n%s" % (r.violated, "\n".join(r.cex[-30:])), dict(spec="OutStream.tla"))
         if not expect_hold:
-            chk.extra["old_profiles_model"] = r.violated or "holds"
+            chk.extra["old_profiles_model:" + cfg] = r.violated or "holds"
             if not r.violated:
                 raise common.MachineryError("vacuous: the unchecked profiles should violate ExitZeroImpliesComplete in the model")
     events = []
@@ -88,8 +93,35 @@ def run(chk, tier, seed):
         cmds.append(("basic", [bas, prog]))
         cmds.append(("basic", [bas, "--help"]))
         cmds.append(("basic", [bas, "--dialect", "help", prog]))
+        # OutStream_cold.cfg's counterexample: an untested write is the one that overflows the buffer and nothing is buffered after it.
+        # Listings whose length is a multiple of the stdio buffer plus 0, 1 or 2 put each kind of write of a line (number, text, the
+        # LISTO space, the newline) on the boundary.
+        def listing_of_length(target, listo, tag):
+            lines = [(10 * i, [0xF4] + [65 + (i % 26)] * 40) for i in range(1, 1 + target // 50)]
+            for attempt in range(12):
+                pth = os.path.join(scratch, "al_%s.bbc" % tag)
+                open(pth, "wb").write(bc.prog("6502", lines))
+                rc, err, L = run_limited([bas, "--listo=%d" % listo, pth], None, scratch, "al")
+                if rc != 0:
+                    raise common.MachineryError("aligned listing reference failed: %r" % err[:200])
+                if L == target:
+                    return pth
+                ln, body = lines[-1]
+                if target - L > 120:
+                    lines.append((ln + 10, [0xF4] + [66] * 40))
+                elif len(body) + target - L < 2:
+                    lines.pop()
+                else:
+                    lines[-1] = (ln, body + [90] * (target - L) if target > L else body[:len(body) - (L - target)])
+            raise common.MachineryError("could not build a listing of %d bytes (got %d)" % (target, L))
+        aligned = []
+        for m in (1, 2) if quick else (1, 2, 3, 5):
+            for r in (0, 1, 2, 6, 7):
+                for listo in (0, 1, 7):
+                    pth = listing_of_length(4096 * m + r, listo, "%d_%d_%d" % (m, r, listo))
+                    aligned.append(("basic", [bas, "--listo=%d" % listo, pth]))
         jobs = []
-        for tool, argv in cmds:
+        for tool, argv in cmds + aligned:
             rc, err, L = run_limited(argv, None, scratch, "full")
             if rc != 0 or L == 0:
                 raise common.MachineryError("reference run of %r failed: rc=%s %r" % (argv[2:], rc, err[:200]))
